@@ -490,6 +490,12 @@ class CGenerator:
             s += " ".join(n.storage) + " "
         for align in n.align or []:
             s += self.visit(align) + " "
+        if n.quals and not isinstance(
+            n.type, (c_ast.TypeDecl, c_ast.PtrDecl, c_ast.ArrayDecl, c_ast.FuncDecl)
+        ):
+            # A declaration without a declarator ("struct s const;") keeps its
+            # qualifiers on the Decl only.
+            s += " ".join(n.quals) + " "
         s += self._generate_type(n.type)
         return s
 
